@@ -34,6 +34,14 @@ type op struct {
 	Msg    []byte `json:"m"`
 }
 
+// scribble overwrites a slice over its whole capacity.
+func scribble(b []byte, v byte) {
+	b = b[:cap(b)]
+	for i := range b {
+		b[i] = v
+	}
+}
+
 type caseIn struct {
 	Kind    string           `json:"kind"` // "stream" | "dgram"
 	Level   *int             `json:"level"`
@@ -144,11 +152,14 @@ func runStream(ci *caseIn) (string, map[string]interface{}, string) {
 				defer catchPanic()
 				defer wg.Done()
 				for _, m := range ci.Writers[w] {
-					if err := ta.Write(m); err != nil {
+					// caller discipline: the buffer is the caller's again when Write has returned
+					buf := append(make([]byte, 0, len(m)+16), m...)
+					if err := ta.Write(buf); err != nil {
 						mu.Lock()
 						werrs++
 						mu.Unlock()
 					}
+					scribble(buf, 0x5A)
 				}
 			}(w)
 		}
@@ -171,20 +182,41 @@ func runStream(ci *caseIn) (string, map[string]interface{}, string) {
 		}
 	}
 	// the peer reads as many messages as complete frames are on the stream
+	// caller discipline: a returned message is compared at once (snapshot) and then either used as
+	// scratch space over its whole capacity or retained and looked at again at the end of the case
 	var readsT []string
+	var snaps, kept [][]byte
+	failedRead := false
 	nread := 0
 	if !guarded(func() {
 		for range frames {
 			m, err := tb.Read()
 			if err != nil {
-				readsT = append(readsT, "None")
+				failedRead = true
 				break
 			}
 			nread++
-			readsT = append(readsT, c13util.OptBytes(m, true))
+			snaps = append(snaps, append([]byte{}, m...))
+			if ci.Conn.Seed&1 == 0 {
+				scribble(m, 0xA5)
+				kept = append(kept, nil)
+			} else {
+				kept = append(kept, m)
+			}
 		}
 	}) {
 		return "", nil, "Transport.Read did not return within the watchdog"
+	}
+	retainedChanged := 0
+	for i := range snaps {
+		if kept[i] != nil && !bytes.Equal(kept[i], snaps[i]) {
+			retainedChanged++
+			snaps[i] = append([]byte{}, kept[i]...) // reported as it is NOW
+		}
+		readsT = append(readsT, c13util.OptBytes(snaps[i], true))
+	}
+	if failedRead {
+		readsT = append(readsT, "None")
 	}
 	tx, rx := ta.TxBytesCounterValue(), tb.RxBytesCounterValue()
 	var wsT []string
@@ -194,7 +226,7 @@ func runStream(ci *caseIn) (string, map[string]interface{}, string) {
 	term := fmt.Sprintf("QStream %s %s %s %s %s %s %d %d", coqfmt.Bool(compOn(ci)), coqfmt.List(wsT), coqfmt.Bytes(stream),
 		coqfmt.List(decT), coqfmt.Bool(clean), coqfmt.List(readsT), tx, rx)
 	obs := map[string]interface{}{"stream_bytes": len(stream), "frames": len(frames), "clean": clean, "reads": nread,
-		"written": total, "write_errors": werrs, "tx": tx, "rx": rx}
+		"written": total, "write_errors": werrs, "tx": tx, "rx": rx, "retained_messages_changed_after_read": retainedChanged}
 	return term, obs, ""
 }
 
@@ -222,10 +254,12 @@ func runDgram(ci *caseIn) (string, map[string]interface{}, string) {
 		handles[k] = h
 	}
 	write := func(o op) error {
+		buf := append(make([]byte, 0, len(o.Msg)+16), o.Msg...)
+		defer scribble(buf, 0x5A) // the caller reuses its buffer as soon as the write has returned
 		if o.Handle == 0 {
-			return ta.WriteUnreliable(o.Msg)
+			return ta.WriteUnreliable(buf)
 		}
-		return handles[o.Handle].Write(o.Msg)
+		return handles[o.Handle].Write(buf)
 	}
 	werrs := 0
 	var mu sync.Mutex
@@ -319,7 +353,7 @@ func runDgram(ci *caseIn) (string, map[string]interface{}, string) {
 	// loop asked for the next datagram; closing the transport ends the queue after them
 	hb, _ := tb.AsUnreliable()
 	tb.Close()
-	var reads [][]byte
+	var reads, keptD [][]byte
 	if !guarded(func() {
 		for {
 			m, err := hb.Read()
@@ -327,9 +361,20 @@ func runDgram(ci *caseIn) (string, map[string]interface{}, string) {
 				return
 			}
 			reads = append(reads, append([]byte{}, m...))
+			if ci.Conn.Seed&1 == 0 {
+				scribble(m, 0xA5)
+				keptD = append(keptD, nil)
+			} else {
+				keptD = append(keptD, m)
+			}
 		}
 	}) {
 		return "", nil, "unreliable Read did not return within the watchdog after Close"
+	}
+	for i := range reads {
+		if keptD[i] != nil && !bytes.Equal(keptD[i], reads[i]) {
+			reads[i] = append([]byte{}, keptD[i]...) // a retained message is reported as it is NOW
+		}
 	}
 	tx := ta.TxBytesCounterValue()
 	var htxT []string
@@ -607,7 +652,7 @@ func main() {
 		ci, kind, nt := genDgram(cr)
 		add(ci, kind, nt)
 	}
-	rule := "stream: 1-4 writer goroutines x 1-7 messages (sizes 0, 1-4, 255-257, random <=300, rarely <=5000 - quick tier: random <=90, 255-257 in 1/24 of the messages, rarely <=1500; payloads that look like length prefixes), fake send stream that yields between Write calls, receive stream handing out 1/3/5/64-byte or unlimited chunks, compression negotiated in ~1/5 of the cases; dgram: 2-7 messages over Transport.WriteUnreliable and 0-3 AsUnreliable() handles, payload size 1-8 (and the default 1188), sizes at multiples of P +-1, sequential or one goroutine per handle, delivery in a random permutation with loss 1/4. non-trivial = concurrent stream writers or >=3 messages; datagram: a multi-segment message and more than one handle; distinct = distinct Coq case terms"
+	rule := "caller discipline in every case: buffers passed to Write/WriteUnreliable are overwritten when the call has returned, returned messages are compared at once and then overwritten over their capacity (even conn seed) or retained and compared again at the end (odd conn seed); stream: 1-4 writer goroutines x 1-7 messages (sizes 0, 1-4, 255-257, random <=300, rarely <=5000 - quick tier: random <=90, 255-257 in 1/24 of the messages, rarely <=1500; payloads that look like length prefixes), fake send stream that yields between Write calls, receive stream handing out 1/3/5/64-byte or unlimited chunks, compression negotiated in ~1/5 of the cases; dgram: 2-7 messages over Transport.WriteUnreliable and 0-3 AsUnreliable() handles, payload size 1-8 (and the default 1188), sizes at multiples of P +-1, sequential or one goroutine per handle, delivery in a random permutation with loss 1/4. non-trivial = concurrent stream writers or >=3 messages; datagram: a multi-segment message and more than one handle; distinct = distinct Coq case terms"
 	if *only != "" {
 		rule = "(-only " + *only + ") " + rule
 	}
